@@ -81,7 +81,7 @@ def canon_tranp(n):
 	if isinstance(n, defs.Spread):
 		return ('Star', canon_tranp(n.expression))
 	if isinstance(n, (defs.Integer, defs.Float)):
-		return ('Num', n.tokens)
+		return ('Num', 'float' if isinstance(n, defs.Float) else 'int', n.tokens)  # the node class is the literal's kind
 	if isinstance(n, defs.String):
 		return ('Str', n.tokens)
 	if isinstance(n, defs.Boolean):
@@ -267,7 +267,7 @@ class PyCanon:
 			if v is Ellipsis:
 				return ('Const', '...')
 			if isinstance(v, (int, float)):
-				return ('Num', self.seg(n))
+				return ('Num', 'float' if isinstance(v, float) else 'int', self.seg(n))
 			if isinstance(v, str):
 				return ('Str', self.seg(n))
 			raise Unsupported('constant')
